@@ -5,9 +5,8 @@
    ranges of Flow/World_rpc.v, which include those of every nested x.field.pack() (the world gives a nested pack exactly
    this checked meaning).  wf_<X> x = true implies <X>_ranges x = true (wf_*_ranges below), so on well-formed messages
    the run is Ok of the model's pack (lemmas flow_X_pack_wf).  `cls` is the class itself. *)
-From V Require Import Prelude.Base Prelude.PyInt Prelude.PySlice Prelude.PyAst Prelude.PyWorld gen.F_rpc.
-From V Require Import Model.Pdu Model.Request Model.RpcLoop Model.Bind Model.Verification Model.Epm Flow.World_rpc Proofs.Flow_rpc_lib.
-From V Require Import Proofs.RpcLib Proofs.RpcPdu.
+From V Require Import Prelude.Base Prelude.PyInt Prelude.PySlice Prelude.PyStr Prelude.PyAst Prelude.PyWorld gen.F_rpc.
+From V Require Import Model.Pdu Model.Request Model.RpcLoop Model.Bind Model.Verification Model.Epm Flow.World_rpc Proofs.Flow_rpc_lib Proofs.Flow_rpc_wf.
 Local Open Scope string_scope.
 Local Open Scope list_scope.
 Local Open Scope Z_scope.
@@ -43,53 +42,6 @@ Proof. unfold fault_unpack. destruct st; tie. Qed.
 Lemma flow_fault_pack mf fuel m :
   run (W mf) fuel k_flow_fault_pack [VO (OFault m)] = chk (fault_ranges m) (fault_pack m).
 Proof. unfold fault_pack, fault_body, opt_sec_trailer_pack, fault_ranges, chk. destruct m as [h [st|] ? ? ? ? ? ?]; tie. Qed.
-
-(* ---- well-formed values are in range: on them the checked pack is the model's pack ------------------------------ *)
-Lemma mem_in_range w x l : forallb (in_range w) l = true -> mem x l = true -> in_range w x = true.
-Proof. intros Hl Hm. apply mem_cases in Hm. rewrite forallb_forall in Hl. exact (Hl x Hm). Qed.
-
-Lemma wf_data_rep_ranges d : wf_data_rep d = true -> data_rep_ranges d = true.
-Proof.
-  unfold wf_data_rep, data_rep_ranges, k_datarep_first_octet. intros H.
-  apply andb_prop in H. destruct H as [H H3]. apply andb_prop in H. destruct H as [H1 H2].
-  rewrite (mem_in_range 1 _ c_FloatingPointRep_values eq_refl H3), andb_true_r.
-  apply mem_cases in H1. apply mem_cases in H2. cbn [In c_IntegerRep_values c_CharacterRep_values] in H1, H2.
-  destruct H1 as [<-|[<-|[]]]; destruct H2 as [<-|[<-|[]]]; reflexivity.
-Qed.
-
-Lemma wf_pdu_header_ranges h : wf_pdu_header h = true -> pdu_header_ranges h = true.
-Proof.
-  unfold wf_pdu_header, pdu_header_ranges. intros H.
-  repeat match type of H with (_ && _) = true => let H' := fresh "H" in apply andb_prop in H; destruct H as [H H'] end.
-  rewrite H, (mem_in_range 1 _ c_PacketType_values eq_refl H5), (wf_data_rep_ranges _ H3). repeat (rewrite ?H0, ?H1, ?H2, ?H4, ?H6; cbn [andb]). reflexivity.
-Qed.
-
-Lemma wf_sec_trailer_ranges s : wf_sec_trailer s = true -> sec_trailer_ranges s = true.
-Proof.
-  unfold wf_sec_trailer, sec_trailer_ranges. intros H.
-  repeat match type of H with (_ && _) = true => let H' := fresh "H" in apply andb_prop in H; destruct H as [H H'] end.
-  rewrite (mem_in_range 1 _ c_SecurityProvider_values eq_refl H), (mem_in_range 1 _ c_AuthenticationLevel_values eq_refl H3), H2, H1. reflexivity.
-Qed.
-
-Lemma wf_lengths_ranges h total st : wf_lengths h total st = true -> opt_sec_trailer_ranges st = true.
-Proof.
-  unfold wf_lengths. intros H. apply andb_prop in H. destruct H as [_ H]. destruct st as [t|]; [|reflexivity].
-  apply andb_prop in H. destruct H as [_ H]. exact (wf_sec_trailer_ranges t H).
-Qed.
-
-Ltac split_wf H :=
-  repeat match type of H with (_ && _) = true => let H' := fresh "H" in apply andb_prop in H; destruct H as [H H'] end.
-Ltac use_true := repeat match goal with H : ?b = true |- context [?b] => rewrite H end; cbn [andb]; try reflexivity.
-Ltac wf_msg :=
-  try match goal with H : wf_pdu_header _ = true |- _ => pose proof (wf_pdu_header_ranges _ H) end;
-  try match goal with H : wf_lengths _ _ _ = true |- _ => pose proof (wf_lengths_ranges _ _ _ H) end;
-  use_true.
-
-Lemma wf_fault_ranges m : wf_fault m = true -> fault_ranges m = true.
-Proof.
-  unfold wf_fault, fault_ranges. intros H.
-  split_wf H. wf_msg.
-Qed.
 
 Lemma flow_fault_pack_wf mf fuel m : wf_fault m = true ->
   run (W mf) fuel k_flow_fault_pack [VO (OFault m)] = Ok (VB (fault_pack m)).
